@@ -1,6 +1,6 @@
 (* C13 - confirms, returns and blocked notices are forwarded verbatim, in order.
    This file only pins statements. *)
-From Amq Require Import Lib.Base Gen.Consts Model.Wire Model.Frames Model.OutBuf Model.Collector Model.Slots Model.Core Spec.Slots Spec.Content Proofs.Slots Proofs.OutBuf Proofs.Collector Proofs.CoreContent Proofs.CoreInv Proofs.CoreMore.
+From Amq Require Import Lib.Base Gen.Consts Model.Wire Model.Frames Model.OutBuf Model.Collector Model.Slots Model.Core Spec.Slots Spec.Content Proofs.Slots Proofs.OutBuf Proofs.Collector Proofs.CoreContent Proofs.CoreInv Proofs.CoreMore Check.Core Proofs.Examples.
 
 (* an ack / nack on channel n reaches the current confirm listener as exactly (ack|nack, tag, multiple), appended at the end of its queue; nothing else changes *)
 Theorem C13_confirm_forwarded : forall (n dtag : N) (multiple ack : bool) (dbg : str) (c : core) (s : slot) (q : N), steady c -> n <> 0 -> alookup n (c_slots c) = Some s -> s_conf s = Some q -> has_room q (c_qs c) -> process c (FMethod n (if ack then MAck dtag multiple else MNack dtag multiple), dbg) = (OOk, set_slot (set_qs c (pushed q (IConfirm ack dtag multiple) (c_qs c))) n s).
@@ -26,6 +26,18 @@ Proof. exact blocked_forwarded. Qed.
 Theorem C13_no_panic : forall (c : core) (f : dframe) (o : outcome) (c' : core), process c f = (o, c') -> WFs c -> (forall site : N, o <> OPanic site) /\ WFs c'.
 Proof. exact process_WFs. Qed.
 
+(* non-vacuity of C13_confirm_forwarded: a confirm listener installed the way the handle does
+   it (queue 3, through the mailbox of channel 1); an ack (multiple) and a nack arrive: the
+   listener's queue holds exactly those two, verbatim, in order *)
+Example C13_example :
+  let c0 := ex_build [OClAllocReq None; OEvent EvAlloc; OClRecv 1; OClNewQ;
+                      OClSend 1 (MsgSetConfirm (Some 3)); OEvent (EvChan 1)] in
+  map (fun '(n, s) => (n, s_conf s)) (c_slots c0) = [(1, Some 3)] /\
+  let '(o, c) := process_all c0 [(FMethod 1 (MAck 5 true), []); (FMethod 1 (MNack 7 false), [])] in
+  (o, ex_queues c) = (OOk, [(3, [IConfirm true 5 true; IConfirm false 7 false], true);
+                            (1, [IAllocOk 1], true); (2, [], true); (0, [], true)]).
+Proof. vm_compute. repeat split. Qed.
+
 Check C13_confirm_forwarded : forall (n dtag : N) (multiple ack : bool) (dbg : str) (c : core) (s : slot) (q : N), steady c -> n <> 0 -> alookup n (c_slots c) = Some s -> s_conf s = Some q -> has_room q (c_qs c) -> process c (FMethod n (if ack then MAck dtag multiple else MNack dtag multiple), dbg) = (OOk, set_slot (set_qs c (pushed q (IConfirm ack dtag multiple) (c_qs c))) n s).
 Check C13_confirm_discarded : forall (n dtag : N) (multiple ack : bool) (dbg : str) (c : core) (s : slot), steady c -> n <> 0 -> alookup n (c_slots c) = Some s -> s_conf s = None -> process c (FMethod n (if ack then MAck dtag multiple else MNack dtag multiple), dbg) = (OOk, set_slot c n s).
 Check C13_dropped_listener : forall (n dtag : N) (multiple : bool) (dbg : str) (c : core) (s : slot) (q : N) (qu : queue), steady c -> n <> 0 -> alookup n (c_slots c) = Some s -> s_conf s = Some q -> alookup q (c_qs c) = Some qu -> q_rx qu = false -> process c (FMethod n (MAck dtag multiple), dbg) = (OOk, set_slot (set_qs c (drop_tx q (c_qs c))) n (with_conf s None)).
@@ -39,3 +51,4 @@ Print Assumptions C13_dropped_listener.
 Print Assumptions C13_replaced.
 Print Assumptions C13_blocked_forwarded.
 Print Assumptions C13_no_panic.
+Print Assumptions C13_example.
